@@ -233,6 +233,41 @@ def r3_attribution(ctx):
         ok = p.degrees("run_number") == {1, 0} or p.degrees("run_number") == {1}
         ok = ok and len([t for t in p.terms if any(s == "run_number" for s, _ in t)]) == 1
     ctx.check(ok, ar.qual, "suffix = run_number + const (injective)" if ok else "the file suffix is not an injective function of the run index", where=ar, node=fm[0] if fm else ar.node)
+    # automatic numbering (no run number given): the next number is one above the LARGEST NUMBER already
+    # used - the order is taken over the extracted integers, never over file names ('_9' sorts after
+    # '_10') nor over glob's arbitrary order, nor a count (gaps) - else an existing file's number is reused
+    fa = [c for c in calls_in(ar.node) if isinstance(c.func, ast.Attribute) and c.func.attr == "format" and c.args and "run_number" not in names_in(c.args[0])]
+    if fa:
+        from sa.astutil import flow_exprs
+
+        srcs = [expand(ar, a_) for c in fa for a_ in c.args]
+        cands = []
+        for e_ in srcs:
+            cands.append(e_)
+            if isinstance(e_, ast.Name):
+                cands += [expand(ar, v_) for _, v_ in local_defs(ar, e_.id) if v_ is not None]
+        numeric = False
+        bad_why = None
+        for e_ in cands:
+            for x in ast.walk(e_):
+                agg = None
+                if isinstance(x, ast.Call) and call_name(x) in ("max", "np.max", "numpy.max") and x.args:
+                    agg = expand(ar, x.args[0])
+                elif isinstance(x, ast.Subscript) and isinstance(x.slice, ast.UnaryOp) and isinstance(x.slice.op, ast.USub) and isinstance(x.slice.operand, ast.Constant) and x.slice.operand.value == 1:
+                    inner = expand(ar, x.value)
+                    if isinstance(inner, ast.Call) and call_name(inner) == "sorted" and inner.args and not inner.keywords:
+                        agg = expand(ar, inner.args[0])
+                    else:
+                        bad_why = f"`{norm(x)[:50]}` takes the last entry of something that is not sorted by number"
+                if agg is None:
+                    continue
+                elt = agg.elt if isinstance(agg, (ast.GeneratorExp, ast.ListComp, ast.SetComp)) else (agg.args[0] if isinstance(agg, ast.Call) and call_name(agg) == "map" and agg.args else None)
+                if elt is not None and ((isinstance(elt, ast.Call) and call_name(elt) in ("get_number", "int")) or (isinstance(elt, ast.Name) and elt.id == "get_number")):
+                    numeric = True
+                else:
+                    bad_why = f"the largest entry is taken over `{norm(agg)[:50]}`, which is not the extracted numbers"
+        ok = numeric and bad_why is None
+        ctx.check(ok, ar.qual + "#next-free-number", "automatic numbering: largest extracted number + 1" if ok else f"automatic numbering does not continue after the largest number in use ({bad_why or 'no maximum over the extracted numbers found'}): an existing file's number is handed out again", where=ar, node=fa[0])
     so = ctx.func(f"{OO}:Outputs.save_to_file")
     gv = [v for s_, v in local_defs(so, "value") if v is not None]
     ok = len(gv) == 1 and norm(gv[0]).startswith("processor.get(valid_name")
